@@ -80,7 +80,7 @@ type ExternAssume struct {
 	Info *types.Info
 }
 
-var kwRe = regexp.MustCompile(`^(func|props|variant|ghost|requires|ensures|invariant|decreases|assigns|safe|summary|alias|nonnil|extern|opt|lemma|assume|callreq|trusted|uninterpreted|assertafter|assertat|tablefact|typeinv|transition|codec)\b`)
+var kwRe = regexp.MustCompile(`^(func|props|variant|ghost|requires|ensures|invariant|decreases|assigns|safe|summary|alias|nonnil|extern|opt|lemma|assume|callreq|trusted|uninterpreted|assertafter|assertat|tablefact|typeinv|transition|codec|globals)\b`)
 var tagRe = regexp.MustCompile(`^\[([A-Za-z0-9, ]+)\]\s*`)
 var nameRe = regexp.MustCompile(`^([a-zA-Z_][a-zA-Z0-9_\-]*):\s+`)
 
@@ -153,6 +153,8 @@ func (e *Engine) loadContracts(file *ast.File) error {
 			}
 			props, name, rest := splitTagName(strings.TrimSpace(p[1]))
 			e.tableFacts = append(e.tableFacts, &TableFact{Global: p[0], Cl: Clause{Name: name, Props: props, Src: rest, Line: d.line}})
+		case "globals":
+			// reviewed set of package-level variables: decided by the frame engine (globals#reviewed-set)
 		case "codec":
 			// serialized-format table: decided by the frame engine (codec#widths-agree)
 		case "transition":
